@@ -160,6 +160,17 @@ func (w *bbWorld) drawACCEPTVP(h int64, r uint64) base.ACCEPTVoteproof {
 	return gen.ACCEPTVoteproof(bbPoint(h, r), nil, sfs, w.th, nil)
 }
 
+// drawINITVP: the INIT stage of (h,r) ended in a draw (every node another proposal); what a ballot of the next round may carry
+// instead of the ACCEPT draw voteproof (base.IsValidINITBallot allows both). Added for C04.
+func (w *bbWorld) drawINITVP(h int64, r uint64) base.INITVoteproof {
+	sfs := make([]base.BallotSignFact, w.n)
+	for i := 0; i < w.n; i++ {
+		sfs[i] = gen.SignINIT(w.initFact(h, r, 100+i, nil), w.locals[i])
+	}
+
+	return gen.INITVoteproof(bbPoint(h, r), nil, sfs, w.th, nil)
+}
+
 func (w *bbWorld) initVP(h int64, r uint64) base.INITVoteproof {
 	return gen.FullINITVoteproof(w.initFact(h, r, 0, nil), w.locals[:w.n], w.th, nil)
 }
@@ -261,6 +272,24 @@ func (w *bbWorld) build(d bbBallotDesc) (bl base.Ballot, ok bool) {
 		ex := w.expels(d.Height, "full")
 
 		return isaac.NewACCEPTBallot(w.initExpelVP(d.Height, d.Round), signACCEPT(w.acceptFact(d.Height, d.Round, 0, gen.ExpelFactHashes(ex))), ex), true
+	case "initI", "initXI", "initYI", "initExpelI":
+		// the facts of init/initX/initY/initExpel in a ballot of a later round that carries the previous round's INIT draw
+		// voteproof instead of its ACCEPT draw voteproof; added for C04, not in any kind list
+		if d.Round == 0 || w.n < 2 {
+			return nil, false
+		}
+
+		ivp := w.drawINITVP(d.Height, d.Round-1)
+
+		if d.Kind == "initExpelI" {
+			ex := w.expels(d.Height, d.ExpelBy)
+
+			return isaac.NewINITBallot(ivp, signINIT(w.initFact(d.Height, d.Round, 0, gen.ExpelFactHashes(ex))), ex), true
+		}
+
+		v := map[string]int{"initI": 0, "initXI": 1, "initYI": 2}[d.Kind]
+
+		return isaac.NewINITBallot(ivp, signINIT(w.initFact(d.Height, d.Round, v, nil)), nil), true
 	case "initY": // a third fact for the point (three-way splits); added for C04, not in any kind list
 		return isaac.NewINITBallot(prevVP, signINIT(w.initFact(d.Height, d.Round, 2, nil)), nil), true
 	case "acceptY":
